@@ -2,7 +2,7 @@
 from fractions import Fraction as Fr
 import numpy as np
 from harness import coqio as Q
-from harness.impl import lin_wcs, family_wcs, exc_name
+from harness.impl import poke, lin_wcs, family_wcs, exc_name
 
 CORR = "C09_corr"
 IMPORTS = ["M_Wrappers", "M_Resample"]
@@ -185,6 +185,7 @@ def run(case):
     ec2 = case.get("ec2")
     if ec2:
         _add_coupled(cube, ec2)
+    poke(cube, case["key"])
     src = cube
     bins = tuple(case["bins"])
     why = []
